@@ -554,6 +554,7 @@ func stripIdx(s string) string {
 func runSetHistory(c *mcx.Ctx, cs Case) (obs, sig, class string) {
 	env := &intoto.Envelope{}
 	var last *intoto.Link
+	var committed any // deep copy of what the last successful SetPayload was given
 	fresh := func(tag string) *intoto.Link {
 		l := gen.Link("h-"+tag, gen.Arts("m", gen.H(1)), gen.Arts(), "cmd")
 		return &l
@@ -592,6 +593,35 @@ func runSetHistory(c *mcx.Ctx, cs Case) (obs, sig, class string) {
 			if err := env.Sign(gen.Key("ed1").Full); err != nil {
 				return err.Error(), "", "skip"
 			}
+			// signing signs what was set last, and leaves it in the envelope
+			if committed != nil {
+				got, err := payloadBytes(env)
+				if err != nil {
+					return err.Error(), "C11|set-history|payload-unreadable", "violation"
+				}
+				dec, _ := gen.ParseOrdered(got)
+				if !reflect.DeepEqual(norm(dec), norm(refschema.Tree(committed))) {
+					return fmt.Sprintf("after operation %d (Sign) the payload decodes to %s", i, clip(string(got))), "C11|set-history|signed-payload-is-not-the-metadata-that-was-set|after-" + strings.Join(cs.Ops[:i+1], ","), "violation"
+				}
+				if err := env.VerifySignature(gen.Key("ed1").Pub); err != nil {
+					return "signature made by Sign does not verify: " + err.Error(), "C11|set-history|own-signature-does-not-verify|after-" + strings.Join(cs.Ops[:i+1], ","), "violation"
+				}
+			}
+		case "DumpLoad":
+			// the envelope goes through a file and the library's loader, as a layout that is loaded, changed and signed again
+			if committed == nil {
+				return "no object yet", "", "skip"
+			}
+			p := filepath.Join(c.Work, "sh.json")
+			os.Remove(p)
+			if err := env.Dump(p); err != nil {
+				return err.Error(), "", "skip"
+			}
+			md, err := intoto.LoadMetadata(p)
+			if err != nil {
+				return err.Error(), "", "skip" // an unsigned envelope does not load (F21 territory, C12)
+			}
+			env = md.(*intoto.Envelope)
 		case "SetRefused":
 			// content without a canonical form is refused, and a refused call changes nothing: neither the
 			// payload everybody else sees nor the one GetPayload hands out
@@ -628,6 +658,7 @@ func runSetHistory(c *mcx.Ctx, cs Case) (obs, sig, class string) {
 		if !reflect.DeepEqual(norm(dec), norm(refschema.Tree(*last))) {
 			return fmt.Sprintf("after operation %d (%s) the payload decodes to %s", i, op, clip(string(got))), "C11|set-history|payload-is-not-the-metadata-that-was-set|after-" + strings.Join(cs.Ops[:i+1], ","), "violation"
 		}
+		committed = clone(*last)
 	}
 	return "ok", "", "payload-follows-set"
 }
@@ -676,10 +707,10 @@ func enumerate(thorough bool, emit func(Case)) {
 			}
 		}
 	}
-	ops := []string{"SetA", "SetB", "MutateInPlace", "AppendCommand", "ReSet", "Sign", "SetRefused"}
-	depth := 3
+	ops := []string{"SetA", "SetB", "MutateInPlace", "AppendCommand", "ReSet", "Sign", "SetRefused", "DumpLoad"}
+	depth := 4
 	if thorough {
-		depth = 4
+		depth = 5
 	}
 	var rec func(h []string)
 	rec = func(h []string) {
